@@ -647,3 +647,36 @@ def one_creator_used_again_after_the_library_grew_sees_the_new_nuclide(
     for g in range(ng):
         for h in range(ng):
             assert eq(m3["elasticScatter"].a[g][h], n2 * s * sc["elasticScatter"][g][h]), "the new nuclide alone: not zero"
+
+
+@lemma(gen={"ng": (1, 2), "n1": (1e-4, 0.1), "n2": (1e-4, 0.1), "tr1": (0.1, 20.0), "tr2": (0.1, 20.0)},
+       overrides={"armi.nuclearDataIO.xsCollections:sparse": "DenseSparse"})
+def one_creator_used_for_two_blocks_gives_each_block_its_own_constants(
+        ng: int, n1: float, n2: float, g1: float, g2: float, al1: float, al2: float, f1: float, f2: float, w1: float, w2: float,
+        nu1: float, nu2: float, tr1: float, tr2: float,
+        e11: float, e12: float, e21: float, e22: float, i11: float, i12: float, i21: float, i22: float, m11: float, m12: float, m21: float, m22: float):
+    """ONE MacroscopicCrossSectionCreator building the constants of two blocks one after the other (what
+    createMacrosOnBlocklist does): the second block's vectors - the accumulated absorption and the removal derived
+    from it included - are the density-weighted sums of ITS composition alone, and the constants already handed out for
+    the first block are not altered by the second call (no storage shared between the two results)."""
+    ng = choose(ng, 1, 2)
+    assume(n1 > 0 and n2 > 0 and tr1 > 0 and tr2 > 0)
+    zero = [0.0, 0.0]
+    base = {"nGamma": [g1, g2], "nalph": [al1, al2], "np": zero, "nd": zero, "nt": zero, "fission": [f1, f2], "n2n": [w1, w2],
+            "neutronsPerFission": [nu1, nu2], "chi": [1.0, 0.0], "total": [tr1, tr2], "transport": [tr1, tr2]}
+    sc = {"elasticScatter": [[e11, e12], [e21, e22]], "inelasticScatter": [[i11, i12], [i21, i22]], "n2nScatter": [[m11, m12], [m21, m22]]}
+    lib = full_library(1, ng, base, [1.0, 1.0], sc)
+    mc = Creator()
+    m1 = mc.createMacrosFromMicros(lib, new(Block, dens={"A": n1}))
+    m2 = mc.createMacrosFromMicros(lib, new(Block, dens={"A": n2}))
+    assert m1 is not m2, "each call returns its own collection"
+    for m, n in ((m2, n2), (m1, n1)):
+        for g in range(ng):
+            for r in VEC + ["total", "transport"]:
+                assert eq(m[r][g], n * base[r][g]), "vector reaction = density-weighted sum of this block alone"
+            assert eq(m.absorption[g], n * sum([base[r][g] for r in VEC])), "absorption = capture + fission + n2n of this block alone"
+            assert eq(m.nuSigF[g], n * base["fission"][g] * base["neutronsPerFission"][g])
+            out = sum([m.totalScatter.a[h][g] for h in range(ng)]) - m.totalScatter.a[g][g]
+            assert eq(m.removal[g], n * sum([base[r][g] for r in VEC]) - n * base["n2n"][g] + out), "removal of this block alone"
+            for h in range(ng):
+                assert eq(m["elasticScatter"].a[g][h], n * sc["elasticScatter"][g][h])
